@@ -8,8 +8,11 @@ KANI_CMD = ("cargo kani -Z function-contracts -Z stubbing -Z unstable-options --
 
 def x_only(prop, level="proof", explanation=None):
     def f(out: Outcome):
+        from . import gen
         progs = corpus.all_programs(out.tier, out.seed)
         run_x(out, progs, prop)
+        if prop in ("C06", "C11"):
+            gen.add_obligations(out, prop)
         return finish(out, level, KANI_CMD, explanation)
     return f
 
